@@ -12,6 +12,7 @@ import Petl.Select
 import Petl.ErrPolicy
 import Petl.Basics
 import Petl.Reshape
+import Petl.Views
 namespace Petl
 
 def opCmp : P String := do
@@ -729,6 +730,63 @@ def opRs : P String := do
     pure (showOut (.ok (hdr :: fromColumnsRows m cols)))
   | _ => P.fail s!"bad reshape op {name}"
 
+/-! ### C01: view machines driven by a schedule -/
+
+def pSched : P (List SOp) := do
+  let n ← pNat
+  let mut ops : Array SOp := #[]
+  for _ in [0:n] do
+    let t ← tok
+    if t == "n" then ops := ops.push .new
+    else if t.front == 'x' then
+      match (t.drop 1).toString.toNat? with
+      | some i => ops := ops.push (.next i)
+      | none => P.fail s!"bad schedule op {t}"
+    else P.fail s!"bad schedule op {t}"
+  return ops.toList
+
+/-- per-operation trace: `.` for new, the row or STOP for next (BAD if the iterator does not exist) -/
+def traceRun {σ ι : Type} (m : Machine σ ι) (crashed : ι → Bool) (sched : List SOp) : List String × RunState σ ι :=
+  sched.foldl (fun (acc : List String × RunState σ ι) op =>
+    let st := acc.2
+    match op with
+    | .new => (acc.1 ++ ["."], m.apply st op)
+    | .next i =>
+      match st.iters[i]? with
+      | none => (acc.1 ++ ["BAD"], st)
+      | some it =>
+        let r := m.step st.shared it
+        let st' := m.apply st op
+        let s := match r.2.2 with
+          | some row => showRow row
+          | none => if crashed r.2.1 then "CRASH" else "STOP"
+        (acc.1 ++ [s], st')) ([], m.start)
+
+def opMach : P String := do
+  let kind ← tok
+  match kind with
+  | "cache" => do
+    let guard ← pBool; let n ← pOptNat; let inner ← pTable; let sched ← pSched
+    let (tr, st) := traceRun (cacheMachine guard inner n) (fun _ => false) sched
+    pure (" | ".intercalate tr ++ s!" # cache={st.shared.cache.length} complete={showBool st.shared.complete}")
+  | "dictsgen" => do
+    let rows ← pTable; let sched ← pSched
+    let (tr, _) := traceRun (dictsGenMachine rows) (fun _ => false) sched
+    pure (" | ".intercalate tr)
+  | "sort" => do
+    let cacheOn ← pBool; let out ← pTable; let sched ← pSched
+    let (tr, _) := traceRun (sortViewMachine cacheOn out) (fun _ => false) sched
+    pure (" | ".intercalate tr)
+  | "sortold" => do
+    let out ← pTable; let sched ← pSched
+    let (tr, _) := traceRun (sortViewMachineOld out) (fun it => match it with | .crashed => true | _ => false) sched
+    pure (" | ".intercalate tr)
+  | "pure" => do
+    let rows ← pTable; let sched ← pSched
+    let (tr, _) := traceRun (pureMachine rows) (fun _ => false) sched
+    pure (" | ".intercalate tr)
+  | _ => P.fail s!"bad machine {kind}"
+
 def dispatch (op : String) : Option (P String) :=
   match op with
   | "cmp" => some opCmp
@@ -758,6 +816,7 @@ def dispatch (op : String) : Option (P String) :=
   | "fieldmap" => some opFieldMap
   | "xf" => some opXf
   | "rs" => some opRs
+  | "mach" => some opMach
   | _ => none
 
 end Petl
